@@ -93,7 +93,7 @@ class E1Run:
         kind = op[0]
         self.op_index += 1
         if kind == "step":
-            self.do_step(int(op[1]), op[2] if len(op) > 2 else None)
+            self.do_step(int(op[1]), op[2] if len(op) > 2 else None, op[3] if len(op) > 3 else None)
         elif kind == "reset":
             self.do_reset(op[1])
         elif kind == "req":
@@ -101,8 +101,22 @@ class E1Run:
         else:
             raise GeneratorDefect(f"unknown op {op}")
 
-    def do_step(self, action: int, others: Optional[Dict] = None):
+    def do_step(self, action: int, others: Optional[Dict] = None, inject: Optional[List] = None):
         env = self.env
+        if inject:
+            # requests applied inside the tick, right after the agents' own actions - the same window in which the
+            # actions of further agents would be applied (count-pushing workloads, in-flight faults)
+            game = env.game
+            orig = game.apply_agent_actions
+
+            def apply_agent_actions_with_injection():
+                orig()
+                for req, label in inject:
+                    resp = game.simulation.apply_request(copy.deepcopy(req))
+                    if getattr(resp, "status", None) == "success":
+                        self.fault(label)
+
+            game.apply_agent_actions = apply_agent_actions_with_injection
         # scenarios with several proxy agents (MARL configs): the gymnasium wrapper only feeds the first one; the
         # others get their action through the same public ProxyAgent.store_action call the MARL wrapper uses
         for name, agent in env.game.rl_agents.items():
@@ -111,7 +125,14 @@ class E1Run:
         for m in self.monitors:
             m.before_step(self, action)
         try:
-            ret = env.step(action)
+            try:
+                ret = env.step(action)
+            finally:
+                if inject:
+                    try:
+                        del env.game.apply_agent_actions
+                    except AttributeError:
+                        pass
         except Violation:
             raise
         except Exception as e:  # noqa: BLE001
@@ -208,6 +229,55 @@ class E1Run:
             op.append(extra)
         return op
 
+    def gen_ops(self) -> List[List]:
+        """One op, or a burst of requests inside one tick (count-pushing workloads of C02)."""
+        push = (self.args.get("profile") or {}).get("push", 0.0)
+        op = self.gen_op()
+        if push and op[0] == "step" and self.ops_rng.random() < push:
+            burst = self.gen_push()
+            if burst:
+                while len(op) < 3:
+                    op.append(None)
+                op.append([[b[1], b[2]] for b in burst])
+        return [op]
+
+    def gen_push(self) -> List[List]:
+        r = self.fault_rng
+        net = self.env.game.simulation.network
+        hosts = [n for n in net.nodes.values() if hasattr(n, "file_system") and n.__class__.__name__ in ("Computer", "Server", "Printer")]
+        if not hosts:
+            return []
+        node = r.choice(hosts)
+        hn = node.config.hostname
+        base = ["network", "node", hn]
+        kind = r.choice(["create_burst", "delete_burst", "access_burst", "login_burst", "exec_burst"])
+        ops: List[List] = []
+        if kind == "create_burst":
+            folder = r.choice(sorted(f.name for f in node.file_system.folders.values()))
+            for k in range(r.randint(4, 7)):
+                ops.append(["req", base + ["file_system", "create", "file", folder, f"burst_{self.op_index}_{k}.txt", False], "push_create"])
+        elif kind == "delete_burst":
+            for folder in node.file_system.folders.values():
+                for f in sorted(x.name for x in folder.files.values())[:6]:
+                    ops.append(["req", base + ["file_system", "delete", "file", folder.name, f], "push_delete"])
+        elif kind == "access_burst":
+            for folder in node.file_system.folders.values():
+                for f in sorted(x.name for x in folder.files.values())[:2]:
+                    for _ in range(r.randint(3, 12)):
+                        ops.append(["req", base + ["file_system", "access", folder.name, f], "push_access"])
+        elif kind == "login_burst":
+            others = [n for n in hosts if n is not node]
+            for o in others[:5]:
+                for _ in range(r.randint(1, 3)):
+                    ops.append(["req", ["network", "node", o.config.hostname, "service", "terminal", "node_session_remote_login", "admin", "admin", str(node.network_interface[1].ip_address)], "push_login"])
+        elif kind == "exec_burst":
+            apps = sorted(a.name for a in node.applications.values() if a.name in ("web-browser", "database-client", "dos-bot", "data-manipulation-bot", "ransomware-script"))
+            if apps:
+                app = r.choice(apps)
+                for _ in range(r.randint(3, 12)):
+                    ops.append(["req", base + ["application", app, "execute"], "push_exec"])
+        return ops[:40]
+
     def gen_fault(self) -> Optional[List]:
         """A fault = something another participant could do through the request API between two steps."""
         r = self.fault_rng
@@ -268,6 +338,11 @@ class E1Run:
             self.monitors = make_monitors(a.get("monitors", []), self)
             for m in self.monitors:
                 m.install(self)
+            # wrappers add Python frames to the (synchronous, recursive) delivery path; keep the headroom the
+            # unwrapped code has under the default limit of 1000 so that monitors do not cause RecursionErrors
+            import sys
+
+            sys.setrecursionlimit(1000 + 300 * sum(1 for m in self.monitors if m._patches))
             try:
                 self.build_env()
             except Violation:
@@ -287,10 +362,13 @@ class E1Run:
                 # gymnasium contract: reset before the first step
                 first = ["reset", None] if self.ops_rng.random() < 0.8 else None
                 n_ops = int(a.get("n_ops", 40))
-                for i in range(n_ops):
-                    op = first if (i == 0 and first) else self.gen_op()
-                    self.ops.append(op)
-                    self.do_op(op)
+                i = 0
+                while i < n_ops:
+                    batch = [first] if (i == 0 and first) else self.gen_ops()
+                    for op in batch:
+                        self.ops.append(op)
+                        self.do_op(op)
+                        i += 1
             for m in self.monitors:
                 m.end(self)
         except Violation as v:
